@@ -332,6 +332,15 @@ class StmtMixin:
         if isinstance(it, SymEnumerate):
             self.sym_loop(node, fr, it.seq, enum_start=it.start)
             return
+        if isinstance(it, SymZip):
+            # lock-step iteration: index ranges over the shortest sequence (the loop runs over the
+            # first one under the assumption that none is shorter, which is an obligation)
+            first = it.seqs[0]
+            for other in it.seqs[1:]:
+                self.oblige('zip-lengths@%s:%d' % (fr.qualname, node.lineno), 'pre',
+                            smt.Ge(smt.SeqLen(other.t), smt.SeqLen(first.t)), 'zip')
+            self.sym_loop(node, fr, first, zipped=it.seqs)
+            return
         sv = self.seq_value(it)
         self.sym_loop(node, fr, sv)
 
@@ -360,7 +369,7 @@ class StmtMixin:
             return
         self.sym_loop(node, fr, None, spec)
 
-    def sym_loop(self, node, fr, sv, spec=None, enum_start=None):
+    def sym_loop(self, node, fr, sv, spec=None, enum_start=None, zipped=None):
         ordn = self.loop_ordinal(fr, node)
         spec = spec or self.env.loop_spec(fr.qualname, ordn)
         if spec is None:
@@ -403,9 +412,12 @@ class StmtMixin:
                 elem = self.value_of_sort(smt.SeqNth(sv.t, i), sv.ety)
                 if enum_start is not None:
                     elem = (SInt(smt.Add(i, self.int_term(enum_start))), elem)
+                if zipped is not None:
+                    elem = tuple(self.value_of_sort(smt.SeqNth(z.t, i), z.ety) for z in zipped)
                 self.assign(node.target, elem, fr)
                 fr.locals['_i'] = SInt(i)
                 fr.locals['_seq'] = sv
+                fr.locals['@in_sym_loop'] = True
             else:
                 i = None
                 self.assume(inv(None, 'assume'))
